@@ -352,8 +352,20 @@ def static_recursion(repo=None):
     edges = {}
     for q, node in defs.items():
         out = set()
+        # names bound inside the function (parameters, assignment / loop / comprehension / with / except targets, nested defs):
+        # a local variable that happens to share its name with a library function is not a reference to that function
+        local = {a.arg for a in ast.walk(node.args) if isinstance(a, ast.arg)}
+        local |= {x.id for x in ast.walk(node) if isinstance(x, ast.Name) and isinstance(x.ctx, (ast.Store, ast.Del))}
+        local |= {x.name for x in ast.walk(node) if isinstance(x, (ast.FunctionDef, ast.AsyncFunctionDef, ast.ClassDef)) and x is not node}
+        local |= {x.name for x in ast.walk(node) if isinstance(x, ast.ExceptHandler) and x.name}
+        declared_global = {n for x in ast.walk(node) if isinstance(x, (ast.Global, ast.Nonlocal)) for n in x.names}
+        local -= declared_global
         for x in ast.walk(node):
             names = []
+            if isinstance(x, ast.Name) and x.id in local:
+                continue
+            if isinstance(x, ast.Call) and isinstance(x.func, ast.Name) and x.func.id in local:
+                continue
             if isinstance(x, ast.Call):
                 if isinstance(x.func, ast.Name):
                     names.append(x.func.id)
